@@ -134,6 +134,14 @@ def check_module(R, obs, rng, name, module, family, must_be_supported):
                     bad = "engine cannot run the function: %s" % wv
                 else:
                     bad = compare_values(vm.value, wv, f.ret, ref)
+                    if bad is not None and not isinstance(wv, float) and isinstance(vm.value, int):
+                        # an int that depends on a float comparison can legitimately flip between double and single
+                        # precision: when the source evaluated at single precision disagrees with the double
+                        # evaluation the case is precision-sensitive and not judged
+                        r32 = diff.run_ref(module, f.name, args, {}, f32_mode=True)
+                        if r32.status != "ok" or not sem.values_equal(r32.value, ref.value):
+                            bad = None
+                            R.count("dropped_precision_sensitive_int")
                     if bad is not None and isinstance(wv, float):
                         # the VM computes in double precision and rounds once; a conforming engine rounds after
                         # every operation.  Cancellation can amplify that beyond any simple bound, so the source
